@@ -342,6 +342,10 @@ def _one(args):
                                capture_output=True, text=True)
             if r.returncode != 0:
                 return variant['id'], 'stale', 'patch does not apply: ' + (r.stdout + r.stderr).strip()[:120]
+        if variant.get('post_transform'):
+            why = apply_transform(tmp, variant['post_transform'])
+            if why:
+                return variant['id'], 'stale', why
         # must still parse
         import ast
         for ed in variant['edits']:
